@@ -317,6 +317,52 @@ Definition new_revision (s : st) : st * outcome * list event :=
         st_lru := st_lru s; st_queue := st_queue s; st_ub := st_ub s |}, RNewRev, [])
   else (s, RBad, []).
 
+(* ---- an interning cut short by a panic in user code (C22) ----
+   User code runs inside `intern_id` at these points:
+     before any write but `revision_queue.record`   `Hash` of the key (before the lock), `Eq`
+       in `key_map.find`, `assemble` / `Hash` of the old fields / the rehash inside
+       `key_map.reserve` on the reuse path (all placed before the slot is mutated), `assemble`
+       inside `allocate` on the cold path                                    -> CutEarly
+     after the writes                               the event callback: DidValidateInternedValue
+       on the fast path (after `metadata.last_interned_at = current_revision`, before the LRU
+       move and the durability update), DidInternValue at the end of the cold path,
+       DidDiscard (inside `clear_memos`) and DidReuseInternedValue at the end of the reuse
+       path -- there every write to slot, key map and LRU precedes the first callback
+                                                                              -> CutCallback
+   `intern_cut` gives the state such a call leaves behind, the id the call would have
+   returned, and the events whose callbacks were (at most) entered.  Not covered (the hook
+   would show them as a lost correspondence): a `Hash` panic during the rehash inside
+   `insert_value` on the cold path (after the LRU push, before the key-map insertion), and
+   a CutEarly after `find_reusable_slot` already unlinked maximum-generation slots. *)
+Inductive cut := CutEarly | CutCallback.
+
+Definition intern_cut (shard_of : val -> N) (c : cfg) (s : st) (v : val) (sp : stamp)
+  (fresh : N) (w : cut) : st * outcome * list event :=
+  match w with
+  | CutEarly => (set_queue s (record_active c s), RBad, [])
+  | CutCallback =>
+    let '(s', out, evs) := intern shard_of c s v sp fresh in
+    match out with
+    | RIntern idx gen PFast =>
+      match st_slots s idx with
+      | Some sl =>
+        if s_lia sl <? st_cur s then
+          (* unwound inside the DidValidateInternedValue callback: only the stamp is written *)
+          ({| st_cur := st_cur s;
+              st_slots := updN (st_slots s) idx
+                (Some (mkSlot (s_val sl) (s_gen sl) (st_cur s) (s_dur sl) (s_shard sl)));
+              st_keys := st_keys s;
+              st_lru := st_lru s;
+              st_queue := record_active c s;
+              st_ub := st_ub s |},
+           out, [EvValidate idx (s_gen sl) (st_cur s)])
+        else (s', out, evs)          (* no callback on this path: nothing to unwind from *)
+      | None => (s', out, evs)       (* unreachable *)
+      end
+    | _ => (s', out, evs)            (* cold / reuse: the state is already the final one *)
+    end
+  end.
+
 (* ---- operations, traces, runs ---- *)
 
 Inductive op :=
